@@ -1,8 +1,9 @@
 ------------------------- MODULE TraceScrapeEndpoint -------------------------
 (* Trace validation for C18.  Every line of the ndjson trace written by harness/src/bin/c18.rs is one   *)
 (* thing the harness did to, or saw from, a real HttpListeningExporter over loopback sockets:            *)
-(*   reset     a new exporter: the allowlist entries handed to add_allowed_address, in order, and what  *)
-(*             the builder answered (ok / index of the rejected entry)                                    *)
+(*   reset     a new exporter: the calls made on the builder in order (with_http_listener / other setter / *)
+(*             add_allowed_address(entry)) and what the chain answered (ok / index, among the              *)
+(*             add_allowed_address calls, of the rejected entry)                                          *)
 (*   connect / get / partial / rest / garbage / halfclose / rst / close / bump     client-side steps      *)
 (*   resp      a complete HTTP response read on a connection (status, body class, counter value shown)    *)
 (*   closed    the server closed the connection / the read failed with a reset                            *)
@@ -30,11 +31,11 @@ Reject(why) == Print(<<"MISMATCH at line", l, why>>, FALSE)
 
 (* a new exporter; the builder's answer must be the specification's *)
 TReset ==
-  /\ Setup(E.entries)
+  /\ Setup(E.hist)
   /\ IF E.ok = built'.ok /\ E.bad = built'.bad THEN TRUE
      ELSE Reject(<<"builder answered", E.ok, E.bad, "specification", built'.ok, built'.bad>>)
   /\ IF dev_plain'            \* deviation CF18: reported once per validation run
-     THEN (IF TLCGet(18) = 0 THEN Known("CF18", E.entries[E.bad].s) ELSE TRUE) /\ TLCSet(18, 1)
+     THEN (IF TLCGet(18) = 0 THEN Known("CF18", Listed(E.hist)[E.bad].s) ELSE TRUE) /\ TLCSet(18, 1)
      ELSE TRUE
 
 Max(a, b) == IF a >= b THEN a ELSE b
